@@ -3,15 +3,15 @@
 # Confirms a seeded change in its scratch worktree /tmp/seed/<ID>: suite passes with it; demo fails with it, passes without it.
 set -u
 id=$1; re=${2:-Demo}; pkg=${3:-.}
-d=/tmp/seed/$id
+d=${SEEDBASE:-/tmp/seed}/$id
 export GOFLAGS=-mod=mod GOPROXY=off GOSUMDB=off GOTOOLCHAIN=local
 cd $d || exit 2
 [ -s patch.diff ] || { echo "no patch.diff"; exit 2; }
 git checkout -q -- . 2>/dev/null
-mkdir -p /tmp/seed/aside_$id; mv -f zz_demo*_test.go mux/zz_demo*_test.go /tmp/seed/aside_$id/ 2>/dev/null
+mkdir -p ${SEEDBASE:-/tmp/seed}/aside_$id; mv -f zz_demo*_test.go mux/zz_demo*_test.go ${SEEDBASE:-/tmp/seed}/aside_$id/ 2>/dev/null
 git apply patch.diff || { echo "patch does not apply"; exit 2; }
 echo "--- suite WITH change"; go build ./... && go test -vet=off -count=1 ./... 2>&1 | tail -4
-cp /tmp/seed/aside_$id/zz_demo*_test.go $pkg/ 2>/dev/null
+cp ${SEEDBASE:-/tmp/seed}/aside_$id/zz_demo*_test.go $pkg/ 2>/dev/null
 echo "--- demo WITH change"; go test -vet=off -count=1 -run "$re" $pkg 2>&1 | grep -v '^NETPOLL\|^20[0-9][0-9]/' | tail -6
 git apply -R patch.diff
 echo "--- demo WITHOUT change"; go test -vet=off -count=1 -run "$re" $pkg 2>&1 | grep -v '^NETPOLL\|^20[0-9][0-9]/' | tail -3
